@@ -38,6 +38,8 @@ func emit(prefix string, x any) {
 }
 
 // runOne dispatches on the property; returns the result, the explicit case (with schedule) and a sample.
+var batchBase uint64
+
 func runOne(t *testing.T, prop string, seed uint64, thorough bool, raw json.RawMessage) (*RunResult, any) {
 	switch prop {
 	case "C09":
@@ -54,6 +56,18 @@ func runOne(t *testing.T, prop string, seed uint64, thorough bool, raw json.RawM
 		cc := *c
 		cc.Schedule = res.Schedule
 		return res, &cc
+	}
+	if prop == "C10" {
+		var c *C10Case
+		if raw != nil {
+			c = &C10Case{}
+			if err := json.Unmarshal(raw, c); err != nil {
+				t.Fatal(err)
+			}
+		} else {
+			c = GenC10(seed, thorough, []int{64, 200, 1024, 4096}[(batchBase/7)%4])
+		}
+		return RunC10(t, c), c
 	}
 	if prop == "C16" {
 		var c *C16Case
@@ -99,6 +113,7 @@ func TestWorker(t *testing.T) {
 	if job.Count <= 0 {
 		job.Count = 1
 	}
+	batchBase = job.Seed
 	b := batch{Property: job.Property, Seed: job.Seed, Outcome: "ok", Fired: map[string]int{}, Probes: map[string]int{}}
 	seen := map[string]bool{}
 	for i := 0; i < job.Count; i++ {
